@@ -70,6 +70,21 @@ func (esc *endpointSliceController) podArrived(name, ns string) error {
 	return esc.onEvent(nil, ep, model.EventAdd)
 }
 
+// slicesForPod returns the EndpointSlices of the pod's namespace that have an endpoint whose targetRef is the pod.
+func (esc *endpointSliceController) slicesForPod(pod *corev1.Pod) []types.NamespacedName {
+	var out []types.NamespacedName
+	for _, slice := range esc.slices.List(pod.Namespace, endpointSliceSelector) {
+		for _, e := range slice.Endpoints {
+			if e.TargetRef != nil && e.TargetRef.Kind == kind.Pod.String() &&
+				e.TargetRef.Name == pod.Name && e.TargetRef.Namespace == pod.Namespace {
+				out = append(out, config.NamespacedName(slice))
+				break
+			}
+		}
+	}
+	return out
+}
+
 // initializeNamespace initializes endpoints for a given namespace.
 func (esc *endpointSliceController) initializeNamespace(ns string, filtered bool) error {
 	var err *multierror.Error
